@@ -107,6 +107,7 @@ class Interp:
         self.module = module
         self.max_depth = max_depth
         self.closures = {}
+        self._fn_bodies = set()
         self.tmp = 0
         self.unknown_calls = {}
         self.events = []          # (rule, instance, ok, detail, loc) reported by intrinsics/monitors
@@ -498,7 +499,7 @@ class Interp:
             return out
         res = run(0, st)
         lets = [x["pat"] for x in n.get("stmts", []) if x["k"] == "LetStmt"]
-        if lets:
+        if lets and id(n) not in self._fn_bodies:      # a function's outermost block is cleaned up by _inline (after on_return hooks ran)
             ids = set()
             for p in lets:
                 ids |= self.bound_ids(p)
@@ -1251,6 +1252,7 @@ class Interp:
 
     def _inline(self, f, args, st):
         self.callstack.append(f["key"])
+        self._fn_bodies.add(id(f["body"]))
         try:
             s = State(st.store, st.mon, st.depth + 1).copy()
             res = [(True, s)]
